@@ -15,23 +15,23 @@ open BM
 
 /-- `search` returns exactly the positions `a ≤ p`, `p + |t| ≤ b` at which `t` occurs … -/
 theorem mem_search_iff (l t : Bits) (a b p : Nat) (ht : t ≠ []) :
-    p ∈ search l t a b ↔ a ≤ p ∧ p + t.length ≤ b ∧ matchAt l t p = true := by
-  sorry
+    p ∈ search l t a b ↔ a ≤ p ∧ p + t.length ≤ b ∧ matchAt l t p = true :=
+  mem_search_iff_s l t a b p ht
 
 /-- … in strictly increasing order. -/
-theorem search_sorted (l t : Bits) (a b : Nat) : (search l t a b).Pairwise (· < ·) := by
-  sorry
+theorem search_sorted (l t : Bits) (a b : Nat) : (search l t a b).Pairwise (· < ·) :=
+  search_sorted_s l t a b
 
 /-- An occurrence of `t` at `p` in `l` is an occurrence of `reverse t` at `n - p - |t|` in `reverse l`. -/
 theorem matchAt_reverse (l t : Bits) (p : Nat) (h : p + t.length ≤ l.length) :
-    matchAt l.reverse t.reverse (l.length - p - t.length) = matchAt l t p := by
-  sorry
+    matchAt l.reverse t.reverse (l.length - p - t.length) = matchAt l t p :=
+  matchAt_reverse_s l t p h
 
 /-- The whole result list of a search in the reversed bits, in terms of a search in the stored bits. -/
 theorem search_reverse (l t : Bits) (a b : Nat) (hab : a ≤ b) (hb : b ≤ l.length) (ht : t ≠ []) :
     search l.reverse t.reverse a b
-      = ((search l t (l.length - b) (l.length - a)).map fun p => l.length - p - t.length).reverse := by
-  sorry
+      = ((search l t (l.length - b) (l.length - a)).map fun p => l.length - p - t.length).reverse :=
+  search_reverse_s l t a b hab hb ht
 
 /-! ### find / rfind -/
 
@@ -39,12 +39,12 @@ theorem search_reverse (l t : Bits) (a b : Nat) (hab : a ≤ b) (hb : b ≤ l.le
 /-- `find` under lsb0 = `find` of the reversed pattern in the reversed bits (same start/end, same result
     position, same errors), when `bytealigned` is off. -/
 theorem find_lsb0_mirror_partial (l t : Bits) (start stop : Option Int) :
-    findOp .lsb0 l t start stop false = findOp .msb0 l.reverse t.reverse start stop false := by
-  sorry
+    findOp .lsb0 l t start stop false = findOp .msb0 l.reverse t.reverse start stop false :=
+  find_lsb0_mirror_partial_s l t start stop
 
 theorem rfind_lsb0_mirror_partial (l t : Bits) (start stop : Option Int) :
-    rfindOp .lsb0 l t start stop false = rfindOp .msb0 l.reverse t.reverse start stop false := by
-  sorry
+    rfindOp .lsb0 l t start stop false = rfindOp .msb0 l.reverse t.reverse start stop false :=
+  rfind_lsb0_mirror_partial_s l t start stop
 
 /-- With `bytealigned=True` the unchanged code aligns to stored (msb0) byte positions, not to mirrored ones. -/
 theorem find_lsb0_alignedFind_witness :
@@ -68,14 +68,14 @@ theorem find_lsb0_alignedFind_witness :
 theorem findall_lsb0_chunks_eq_partial (inc : Nat) (l t : Bits) (a b : Nat) (count : Option Nat) (ba : Bool)
     (hab : a ≤ b) (hb : b ≤ l.length) (ht : t ≠ [])
     (hchunk : multiChunk inc t.length a b = false) (hcount : countAligned count ba = false) :
-    findallLsb0 inc l t a b count ba = .ok (findallMsb0 l.reverse t.reverse a b count ba) := by
-  sorry
+    findallLsb0 inc l t a b count ba = .ok (findallMsb0 l.reverse t.reverse a b count ba) :=
+  findall_lsb0_chunks_eq_partial_s inc l t a b count ba hab hb ht hchunk hcount
 
 /-- The public method with the code's own constant: up to 8192 bits every window is a single chunk. -/
 theorem findall_lsb0_mirror_partial (l t : Bits) (start stop : Option Int) (count : Option Int) (ba : Bool)
     (ht : t ≠ []) (hlen : l.length ≤ 8192) (hcount : countAligned count ba = false) :
-    findallOp .lsb0 l t start stop count ba = findallOp .msb0 l.reverse t.reverse start stop count ba := by
-  sorry
+    findallOp .lsb0 l t start stop count ba = findallOp .msb0 l.reverse t.reverse start stop count ba :=
+  findall_lsb0_mirror_partial_s l t start stop count ba ht hlen hcount
 
 /-- Beyond one chunk the unchanged loop loses the left-most chunk when the chunk before it had a match
     (`pos == msb0_start` is tested after `pos` has been moved, before that chunk is searched) … -/
@@ -105,8 +105,8 @@ theorem findall_lsb0_countAligned_witness :
     the reversed operands. -/
 theorem findall_fixed_chunks_eq (inc : Nat) (hinc : 1 ≤ inc) (l t : Bits) (a b : Nat) (count : Option Nat) (ba : Bool)
     (hab : a ≤ b) (hb : b ≤ l.length) (ht : t ≠ []) :
-    findallLsb0Fixed inc l t a b count ba = .ok (findallMsb0 l.reverse t.reverse a b count ba) := by
-  sorry
+    findallLsb0Fixed inc l t a b count ba = .ok (findallMsb0 l.reverse t.reverse a b count ba) :=
+  findall_fixed_chunks_eq_s inc hinc l t a b count ba hab hb ht
 
 /-! ### non-vacuity -/
 example : findOp .lsb0 [true, true, false, true, false, false] [true, false] none none false = .ok (some 1) := by decide
